@@ -130,6 +130,20 @@ def vtty_tests():
         if tty.inq:
             fails.append(f"vtty unread input {bytes(tty.inq)!r}")
     world.uninstall()
+    # a read that needs more bytes than are queued (VMIN=3, 2 queued) waits for the next delivery
+    tty = world.VTty(attrs=world.default_attrs(False, False, 3, 0))
+    tty.inq.extend(b"ab")
+    tty.pending.append(("key", b"cd"))
+    tty.max_calls = 50
+    got = tty.read(world.TTY_FD, 3)
+    if got != b"abc" or bytes(tty.inq) != b"d":
+        fails.append(f"vtty read(VMIN=3) with 2 bytes queued: {got!r} left {bytes(tty.inq)!r}")
+    # a wait that expires always moves the clock, even below the float resolution of the clock
+    tty = world.VTty()
+    t0 = tty.clock
+    tty.select([], [], [], 1e-17)
+    if not tty.clock > t0:
+        fails.append("vtty: an expired select(1e-17) did not advance the clock")
     return fails
 
 
